@@ -209,12 +209,16 @@ def run(ctx):
     main = [c for c in cls if any(cname(callee_name(t)).startswith('RobotBody::detect') for _, t in c.calls())]
     enum_b = C10.find_enumeration(ctx)
     pushes0 = [(bi, t) for bi, t in nb.calls() if cname(callee_name(t)) == 'Vec::push']
-    if len(main) != 1 or len(pushes0) != 1:
-        # not the shape the structural rules below read (twelve (k, target) tasks pushed in a double loop, one closure that
-        # builds, gates and checks the candidate): the function is interpreted as a whole instead
+    # the function is interpreted as a whole (the twelve candidates, with and without limits, each candidate in turn refused by
+    # the limits and by the collision check); only when that is not possible do the structural rules below read the shape it
+    # has today (twelve (k, target) tasks pushed in a double loop, one closure that builds, gates and checks the candidate)
+    try:
         extras = _by_interpretation(ctx, prog, nb, enum_b)
         _pair_tables(ctx, enum_b, extras)
         return
+    except MachineryError:
+        if len(main) != 1 or len(pushes0) != 1:
+            raise
     c = main[0]
     ctx.fn(c)
 
